@@ -7,6 +7,7 @@
   triggered flush, the closed batches) alongside.
 -/
 import ClientGoVerif.Proofs.Pipelined
+import ClientGoVerif.Proofs.PipelinedStore
 namespace CGV.Props.C16
 open CGV CGV.Pipelined
 
@@ -28,6 +29,19 @@ example : (run (init {}) [.set [1] [2], .flush true 0 { res := .ok, applied := 0
 
 /-- the former counter-example `stage; set k v; BatchGet(k); cleanup; Get(k)` now reads "not found" -/
 example : readValue (run (init {}) [.stage, .set [0x6b] [0x09], .batchGet [[0x6b]], .cleanup]) [0x6b] = none := by decide
+
+/-- the same for BatchGet, for every op sequence: the map it returns holds, for every requested key, the newest entry of
+    the key in the transaction's write log (an entry with the empty value for a deleted key) and no entry for a key that
+    was never written or not requested -/
+theorem batch_get_latest (cfg : Cfg) (ops : List Op) (ks : List Bytes) (k : Bytes)
+    (hnf : (run (init cfg) ops).failed = false) :
+    (batchGet (runBoth (init cfg, {}) ops).1 ks).2.get k =
+      if k ∈ ks then (runBoth (init cfg, {}) ops).2.cur.get k else none := by
+  have h := inv_run ops (inv_init cfg) hnf
+  rw [batchGet_result]
+  by_cases hk : k ∈ ks
+  · simp only [hk, if_true]; exact h.view k
+  · simp only [hk, if_false]
 
 /-- a deletion hides every tier: when the newest write of `k` is a delete, a read returns the tombstone (empty value),
     never an older value from the flushing buffer, the cache or the store -/
@@ -69,6 +83,59 @@ theorem at_most_one_in_flight (cfg : Cfg) (ops : List Op) :
   rw [runBoth_fst] at h
   rw [h.active]
   split <;> simp
+
+/-- generation order at the store: for every op sequence and flush timing, as long as no flush has failed, the store
+    tier holds for every key the value of the NEWEST generation that has been flushed and contains the key (`hist` is
+    newest first and its generations are 1,2,3,… by `generations_strict`; the generation whose flush function is still
+    running is not counted).  Since commit turns the locks of the store tier into records with the lock's value
+    (`resolve_outcome_is_primarys`), a key's newest flushed generation is the one that is committed. -/
+theorem store_holds_newest_generation (cfg : Cfg) (ops : List Op) (k : Bytes)
+    (hnf : (run (init cfg) ops).failed = false) (hne : (run (init cfg) ops).errCh ≠ some .err) :
+    (run (init cfg) ops).store.get k = newestFlushed (run (init cfg) ops) k := by
+  have h := inv4_run (sp := {}) ops (inv4_init cfg) (inv2_init cfg)
+  rw [runBoth_fst] at h
+  exact h.newest hnf hne k
+
+/-- at commit time (after `Flush(true)`; `FlushWait()` returned nil: nothing in flight, no failure) that is the newest
+    generation of the whole transaction holding the key -/
+theorem store_holds_newest_generation_at_commit (cfg : Cfg) (ops : List Op) (k : Bytes)
+    (hnf : (run (init cfg) ops).failed = false) (hfl : (run (init cfg) ops).flushing = none) :
+    (run (init cfg) ops).store.get k = ((run (init cfg) ops).hist.map (·.2)).findSome? (·.get k) := by
+  have h2 := inv2_run (sp := {}) ops (inv2_init cfg)
+  rw [runBoth_fst] at h2
+  have hr : (run (init cfg) ops).running = false := by
+    cases hr : (run (init cfg) ops).running with
+    | false => rfl
+    | true => have := h2.runFl hr; rw [hfl] at this; cases this
+  have hne : (run (init cfg) ops).errCh ≠ some .err := by
+    intro he
+    have := (h2.errFl (by rw [he]; rfl)).1
+    rw [hfl] at this; cases this
+  rw [store_holds_newest_generation cfg ops k hnf hne]
+  unfold newestFlushed
+  simp [hr]
+
+example : (run (init {}) [.set [1] [2], .flush true 0 { res := .ok, applied := 0 }, .set [1] [3],
+      .flush true 0 { res := .ok, applied := 0 }, .flushWait { res := .ok, applied := 0 }]).store.get [1] = some [3] ∧
+    (run (init {}) [.set [1] [2], .flush true 0 { res := .ok, applied := 0 }, .set [1] [3],
+      .flush true 0 { res := .ok, applied := 0 }, .flushWait { res := .ok, applied := 0 }]).flushing = none := by decide
+
+/-! ## thresholds: the mutable buffer is bounded -/
+
+/-- memory accounting (sizes are natural numbers: never negative).  For every state and every observed size `mem` of the
+    mutable buffer: `Flush(false)` declines (returns (false, nil)) only while `mem` is below the minimum or below the
+    force threshold — at or above both it always flushes, even with a flush in flight (it then waits for it) — and a
+    `Flush` that flushes leaves an empty mutable buffer.  So after every `Flush` call that returns without error the
+    mutable buffer is empty or smaller than max(MinFlushMemSize, ForceFlushMemSizeThreshold): a caller that calls
+    `Flush(false)` after each batch of writes never holds more than that threshold plus one batch. -/
+theorem mutable_buffer_bounded (s : PState) (force : Bool) (mem : Nat) (late : Completion) :
+    ((doFlush s force mem late).2 = .notFlushed → mem < s.cfg.minSize ∨ mem < s.cfg.forceSize) ∧
+    (s.cfg.minSize ≤ mem → s.cfg.forceSize ≤ mem → (doFlush s force mem late).2 ≠ .notFlushed) ∧
+    (∀ g b rpc, (doFlush s force mem late).2 = .flushed g b rpc → (doFlush s force mem late).1.mbuf = []) := by
+  refine ⟨fun h => needFlush_false (doFlush_notFlushed h).2, ?_, fun g b rpc h => doFlush_flushed_empties h⟩
+  intro h1 h2 h
+  have := (doFlush_notFlushed h).2
+  rw [needFlush_above h1 h2] at this; cases this
 
 /-! ## flush errors -/
 
@@ -113,36 +180,129 @@ example : (doFlushWait (run (init {}) [.set [1] [2], .flush true 0 { res := .ok,
       .flushDone { res := .err, applied := 0, kind := .keyExist [1] }]) { res := .ok, applied := 0 }).1.lastErr
     = some (.keyExist [1] (some [2])) := by decide
 
+/-- a flush error is never lost, for every op sequence and every interleaving of flush completions: once a flush
+    function has failed (`errCh = some .err` after `ops1`), whatever the caller does next (`ops2`: writes, reads, staging,
+    further `Flush`/`FlushWait` calls, any thresholds and observed memory sizes), either one of those calls has returned
+    the error to the caller, or it is still pending and Commit fails -/
+theorem flush_error_never_lost (cfg : Cfg) (ops1 ops2 : List Op) (mem : Nat) (l1 l2 : Completion)
+    (he : (run (init cfg) ops1).errCh = some .err) :
+    .errFlush ∈ runOuts (run (init cfg) ops1) ops2 ∨
+    commitOk (run (run (init cfg) ops1) ops2) mem l1 l2 = false := by
+  have h := inv2_run (sp := {}) ops1 (inv2_init cfg)
+  rw [runBoth_fst] at h
+  rcases err_never_lost ops2 h he with h1 | h1
+  · exact Or.inl h1
+  · right
+    rw [← run_append] at h1 ⊢
+    exact (flush_error_fails_txn cfg (ops1 ++ ops2) mem l1 l2 h1).1
+
 /-- FULL sticky statement (callback layer of InitPipelinedMemDB): once a flush function has failed, no later Commit
-    succeeds, whatever the caller does in between.  FALSE for the code as it stands: `committer.close()` only moves the
-    TTL manager running → closed, so when the failing flush is the one that should have started it (primary batch not
-    flushed yet) the callback keeps flushing — see `flush_error_sticky_false`.  (The error is still returned once
-    — `flush_error_fails_txn` — and a real store refuses to commit a primary that was never locked.) -/
+    gets past the buffer, whatever the caller does in between.  FALSE for the code as it stands, and what is missing is
+    exactly this: `committer.close()` only moves the TTL manager running → closed, so a failure BEFORE the TTL manager was
+    started (no batch holding the primary has been flushed successfully yet) leaves the callback willing to flush; if the
+    caller ignores the error it was handed (`flush_error_never_lost`) and later flushes the primary successfully, Commit
+    passes although the failed batch is lost — `flush_error_sticky_false`.  Everything short of that is proved:
+    `flush_error_sticky_partial` (failure after the TTL manager was started: sticky), `flush_error_outcomes`
+    (failure before: the caller was told, and while the TTL manager is still not started the primary holds no lock in
+    the store, so the store refuses the commit — `unstarted_commit_rejected_by_store`). -/
 def flush_error_sticky : Prop :=
   ∀ (cfg : Cfg) (ops1 ops2 : List Op) (mem : Nat) (l1 l2 : Completion), cfg.layer = true →
     (run (init cfg) ops1).errCh = some .err → commitOk (run (run (init cfg) ops1) ops2) mem l1 l2 = false
 
+/-- the failing flush is the first one; the caller ignores the error FlushWait returns, rewrites the primary and
+    flushes it successfully; Commit passes -/
 theorem flush_error_sticky_false : ¬ flush_error_sticky := by
   intro h
-  have := h { layer := true } [.set [1] [2], .flush true 0 { res := .ok, applied := 0 }, .flushDone { res := .err, applied := 0 }] [.flushWait { res := .ok, applied := 0 }] 0 { res := .ok, applied := 0 } { res := .ok, applied := 0 }
-    rfl (by decide)
+  have := h { layer := true }
+    [.set [1] [2], .set [5] [6], .flush true 0 { res := .ok, applied := 0 }, .flushDone { res := .err, applied := 0 }]
+    [.flushWait { res := .ok, applied := 0 }, .set [1] [3], .flush true 0 { res := .ok, applied := 0 },
+     .flushDone { res := .ok, applied := 0 }]
+    0 { res := .ok, applied := 0 } { res := .ok, applied := 0 } rfl (by decide)
   revert this
   decide
 
-/-- PROVED PART: once the TTL manager is closed (a flush failed after the primary had been flushed, see
-    `failing_flush_closes_running_ttl`), every later Commit fails, whatever happens in between -/
-theorem flush_error_sticky_partial (cfg : Cfg) (ops1 ops2 : List Op) (mem : Nat) (l1 l2 : Completion)
-    (hl : cfg.layer = true) (hc : (run (init cfg) ops1).ttl = .closed) :
-    commitOk (run (run (init cfg) ops1) ops2) mem l1 l2 = false :=
-  commit_fails_closed (by rw [run_cfg, run_cfg]; exact hl) (run_ttl_closed _ ops2 hc) mem l1 l2
+/-- PROVED PART 1 (hypothesis: the TTL manager had been started when the flush function failed — `ttl ≠ uninit`, which
+    `ttl_started_by_primary_flush` / `ttl_started_stable` reduce to "a batch holding the primary was flushed successfully
+    earlier"): for every op sequence before (`ops1`, ending with a running flush), every failing completion `c` and
+    every op sequence after (`ops2`), Commit fails -/
+theorem flush_error_sticky_partial (cfg : Cfg) (ops1 ops2 : List Op) (c : Completion) (mem : Nat) (l1 l2 : Completion)
+    (hl : cfg.layer = true) (hr : (run (init cfg) ops1).running = true) (ht : (run (init cfg) ops1).ttl ≠ .uninit)
+    (hc : c.res = .err) :
+    commitOk (run (run (init cfg) (ops1 ++ [.flushDone c])) ops2) mem l1 l2 = false := by
+  have h := inv2_run (sp := {}) ops1 (inv2_init cfg)
+  rw [runBoth_fst] at h
+  have hfs := h.runFl hr
+  cases hf : (run (init cfg) ops1).flushing with
+  | none => simp [hf] at hfs
+  | some f =>
+    have hcl : (run (init cfg) (ops1 ++ [.flushDone c])).ttl = .closed := by
+      rw [run_append]
+      simp only [run, step, hr, if_true]
+      exact (complete_err_closed_iff c (by rw [run_cfg]; exact hl) hf hc).mpr ht
+    exact commit_fails_closed (by rw [run_cfg, run_cfg]; exact hl) (run_ttl_closed _ ops2 hcl) mem l1 l2
 
-example : (run (init { layer := true }) [.set [1] [2], .flush true 0 { res := .ok, applied := 0 }, .flushDone { res := .ok, applied := 0 }, .set [3] [4],
-    .flush true 0 { res := .ok, applied := 0 }, .flushDone { res := .err, applied := 0 }]).ttl = .closed := by decide
+example : (run (init { layer := true }) [.set [1] [2], .flush true 0 { res := .ok, applied := 0 }, .flushDone { res := .ok, applied := 0 },
+    .set [3] [4], .flush true 0 { res := .ok, applied := 0 }]).running = true ∧
+    (run (init { layer := true }) [.set [1] [2], .flush true 0 { res := .ok, applied := 0 }, .flushDone { res := .ok, applied := 0 },
+    .set [3] [4], .flush true 0 { res := .ok, applied := 0 }]).ttl ≠ .uninit := by decide
 
-/-- a flush function that fails while the TTL manager is running closes it -/
-theorem failing_flush_closes_running_ttl (s : PState) (f : Buf) (c : Completion) (hl : s.cfg.layer = true)
-    (ht : s.ttl = .running) (hf : s.flushing = some f) (hc : c.res = .err) : (complete s c).ttl = .closed :=
-  complete_err_closes c hl ht hf hc
+/-- the successful flush of a batch that holds the primary starts the TTL manager … -/
+theorem ttl_started_by_primary_flush (s : PState) (f : Buf) (c : Completion) (hl : s.cfg.layer = true)
+    (hf : s.flushing = some f) (hc : c.res = .ok) (hp : f.keys.contains s.primary = true) :
+    (complete s c).ttl ≠ .uninit :=
+  complete_ok_starts c hl hf hc hp
+
+/-- … and it never goes back to "not started" -/
+theorem ttl_started_stable (s : PState) (ops : List Op) (h : s.ttl ≠ .uninit) : (run s ops).ttl ≠ .uninit :=
+  run_ttl_started s ops h
+
+/-- a failing flush function closes the TTL manager exactly when it had been started -/
+theorem failing_flush_closes_started_ttl (s : PState) (f : Buf) (c : Completion) (hl : s.cfg.layer = true)
+    (hf : s.flushing = some f) (hc : c.res = .err) : (complete s c).ttl = .closed ↔ s.ttl ≠ .uninit :=
+  complete_err_closed_iff c hl hf hc
+
+/-- PROVED PART 2: for EVERY op sequence, flush timing and failure (callback layer): if Commit gets past the buffer
+    after a flush failure, then (i) the error has been returned to the caller by an earlier call, (ii) the TTL manager
+    is not closed, and (iii) if it is still not started, the primary holds no lock in the store -/
+theorem flush_error_outcomes (cfg : Cfg) (ops1 ops2 : List Op) (mem : Nat) (l1 l2 : Completion)
+    (hl : cfg.layer = true) (he : (run (init cfg) ops1).errCh = some .err)
+    (hok : commitOk (run (run (init cfg) ops1) ops2) mem l1 l2 = true) :
+    .errFlush ∈ runOuts (run (init cfg) ops1) ops2 ∧
+    (run (run (init cfg) ops1) ops2).ttl ≠ .closed ∧
+    ((run (run (init cfg) ops1) ops2).ttl = .uninit →
+      (run (run (init cfg) ops1) ops2).store.get (run (run (init cfg) ops1) ops2).primary = none) := by
+  refine ⟨?_, ?_, ?_⟩
+  · rcases flush_error_never_lost cfg ops1 ops2 mem l1 l2 he with h | h
+    · exact h
+    · rw [hok] at h; cases h
+  · intro hc
+    have := commit_fails_closed (s := run (run (init cfg) ops1) ops2) (by rw [run_cfg, run_cfg]; exact hl) hc mem l1 l2
+    rw [hok] at this; cases this
+  · have h3 := inv3_run (init cfg) (ops1 ++ ops2) hl (inv3_init cfg)
+    rw [run_append] at h3
+    exact h3.unlocked
+
+/-- while the TTL manager has not been started the primary holds no lock in the store — for every op sequence -/
+theorem unstarted_primary_unlocked (cfg : Cfg) (ops : List Op) (hl : cfg.layer = true)
+    (hu : (run (init cfg) ops).ttl = .uninit) :
+    (run (init cfg) ops).store.get (run (init cfg) ops).primary = none :=
+  (inv3_run (init cfg) ops hl (inv3_init cfg)).unlocked hu
+
+/-- … and the MVCC store (Model/Mvcc.lean, `Mvcc.commit`) then refuses to commit the primary: for any store whose locks
+    of transaction `T` are among the keys the buffer has flushed successfully (`store` tier) and on which `T` has no
+    record on the primary yet, the commit of the primary returns `retryable` ("txn not found") and changes nothing -/
+theorem unstarted_commit_rejected_by_store (cfg : Cfg) (ops : List Op) (hl : cfg.layer = true)
+    (hu : (run (init cfg) ops).ttl = .uninit) (ms : Mvcc.Store) (T C : Nat)
+    (habs : ∀ k, lockedBy ms T k → (run (init cfg) ops).store.get k ≠ none)
+    (hfresh : Mvcc.Fresh (Mvcc.getEntry ms.kv (run (init cfg) ops).primary).writes T) :
+    (Mvcc.commit ms [(run (init cfg) ops).primary] T C).2 = some .retryable ∧
+    (Mvcc.commit ms [(run (init cfg) ops).primary] T C).1.kv = ms.kv := by
+  apply commit_unlocked_rejected ms _ T C _ hfresh
+  intro l hlk heq
+  exact habs _ ⟨l, hlk, heq⟩ (unstarted_primary_unlocked cfg ops hl hu)
+
+example : (run (init { layer := true }) [.set [1] [2], .flush true 0 { res := .ok, applied := 0 },
+    .flushDone { res := .err, applied := 0 }]).ttl = .uninit := by decide
 
 /-! ## the range handed to the range task -/
 
@@ -186,5 +346,108 @@ theorem resolved_regions_cover_flushed (splits : List Bytes) (bs : List (List By
 example : covered (runOnRange [] (boundsOf [[[0x61]]]).1 (boundsOf [[[0x61]]]).2) [0x61] = true := by decide
 example : covered (runOnRange [[0x62], [0x6d]] (boundsOf [[[0x61], [0x63], [0x6d]]]).1 (boundsOf [[[0x61], [0x63], [0x6d]]]).2) [0x6d] = true := by
   decide
+
+/-- the same for WHOLE op sequences of the buffer with the callback of InitPipelinedMemDB (any thresholds, flush timings,
+    failures, staging): every key the callback has sent to the store in a Flush request (`lockKeys`) lies in the
+    half-open range [pipelinedStart, pipelinedEnd) the transaction holds at that moment — hence in the range commit,
+    rollback or the cleanup after a failed commit hands to the range task.  Assumption: written keys are non-empty. -/
+theorem machine_range_covers_flushed (cfg : Cfg) (ops : List Op) (hok : ∀ op ∈ ops, op.keyOk = true) (k : Bytes)
+    (hk : k ∈ (run (init cfg) ops).lockKeys) :
+    inRange (run (init cfg) ops).pStart (run (init cfg) ops).pEnd k = true := by
+  have h := inv5_run (init cfg) ops hok (inv5_init cfg)
+  rcases h.bounds with ⟨h0, _⟩ | ⟨_, g, _, hpe, h3⟩
+  · rw [h0] at hk; cases hk
+  · obtain ⟨h1, h2⟩ := h3 k hk
+    simp only at hpe h1
+    unfold inRange
+    rw [hpe, h1, le_lt_trans h2 (lt_nextKey g)]; rfl
+
+/-- … and, for every region layout, in a region the range task visits -/
+theorem machine_regions_cover_flushed (cfg : Cfg) (ops : List Op) (hok : ∀ op ∈ ops, op.keyOk = true)
+    (splits : List Bytes) (k : Bytes) (hk : k ∈ (run (init cfg) ops).lockKeys) :
+    covered (runOnRange splits (run (init cfg) ops).pStart (run (init cfg) ops).pEnd) k = true := by
+  have h := inv5_run (init cfg) ops hok (inv5_init cfg)
+  rcases h.bounds with ⟨h0, _⟩ | ⟨_, g, _, hpe, h3⟩
+  · rw [h0] at hk; cases hk
+  · obtain ⟨h1, h2⟩ := h3 k hk
+    simp only at hpe h1
+    have hklt : Bytes.lt k (run (init cfg) ops).pEnd = true := by rw [hpe]; exact le_lt_trans h2 (lt_nextKey g)
+    have hlt := le_lt_trans h1 hklt
+    have hnonempty : (run (init cfg) ops).pEnd.isEmpty = false := by rw [hpe]; exact nextKey_isEmpty g
+    unfold runOnRange
+    simp only [hnonempty, Bool.false_eq_true, if_false, hlt, Bool.not_true]
+    exact tasks_cover splits [] _ _ k (nil_le _) h1 (le_iff.mpr (Or.inl hklt)) (Or.inl hklt)
+
+example : (∀ op ∈ [Op.set [0x61] [1], .flush true 0 { res := .ok, applied := 0 }], op.keyOk = true) ∧
+    [0x61] ∈ (run (init { layer := true }) [.set [0x61] [1], .flush true 0 { res := .ok, applied := 0 }]).lockKeys := by
+  decide
+
+/-! ## at the store: commit or rollback drives every flushed lock to the outcome of the primary -/
+
+/-- for EVERY region layout, every sequence of flushed batches and every store state that satisfies the store invariant:
+    after the range task of commit (`C` = commit ts) or rollback (`C = 0`) has run — one region-wide ResolveLock(T, C)
+    per region visited by RunOnRange on [pipelinedStart, pipelinedEnd) — no flushed key is locked by `T` any more, and
+    its entry is exactly what ResolveLock(T, C) makes of it (`rk`) -/
+theorem resolve_drives_flushed_locks (ms : Mvcc.Store) (hs : Mvcc.SInv ms) (T C : Nat) (hC : C = 0 ∨ T < C)
+    (splits : List Bytes) (hsp : ∀ h ∈ splits, h ≠ []) (bs : List (List Bytes)) (hv : validBatches bs)
+    (k : Bytes) (hk : k ∈ bs.flatten) :
+    ¬ lockedBy (resolveRegionsStore ms (runOnRange splits (boundsOf bs).1 (boundsOf bs).2) T C) T k ∧
+    Mvcc.getEntry (resolveRegionsStore ms (runOnRange splits (boundsOf bs).1 (boundsOf bs).2) T C).kv k =
+      rk T C k (Mvcc.getEntry ms.kv k) := by
+  have hcov := resolved_regions_cover_flushed splits bs hv k hk
+  have hne : ∀ r ∈ runOnRange splits (boundsOf bs).1 (boundsOf bs).2, ∀ h, r.2 = some h → h ≠ [] :=
+    fun r hr h hh => hsp h (runOnRange_ends_in_splits splits _ _ r hr h hh)
+  have he := getEntry_resolveRegions T C hC k _ ms hs hne
+  rw [hcov] at he
+  simp only [if_true] at he
+  refine ⟨?_, he⟩
+  rintro ⟨l, hl, hT⟩
+  rw [he] at hl
+  exact rk_unlocks T C k _ l hl hT
+
+/-- the same for whole op sequences of the buffer with the callback: every key the callback has sent to the store is
+    released by the range task run on the transaction's own [pipelinedStart, pipelinedEnd), for every region layout -/
+theorem machine_resolve_drives_flushed_locks (cfg : Cfg) (ops : List Op) (hok : ∀ op ∈ ops, op.keyOk = true)
+    (ms : Mvcc.Store) (hs : Mvcc.SInv ms) (T C : Nat) (hC : C = 0 ∨ T < C)
+    (splits : List Bytes) (hsp : ∀ h ∈ splits, h ≠ []) (k : Bytes) (hk : k ∈ (run (init cfg) ops).lockKeys) :
+    ¬ lockedBy (resolveRegionsStore ms
+        (runOnRange splits (run (init cfg) ops).pStart (run (init cfg) ops).pEnd) T C) T k := by
+  have hcov := machine_regions_cover_flushed cfg ops hok splits k hk
+  have hne : ∀ r ∈ runOnRange splits (run (init cfg) ops).pStart (run (init cfg) ops).pEnd, ∀ h, r.2 = some h → h ≠ [] :=
+    fun r hr h hh => hsp h (runOnRange_ends_in_splits splits _ _ r hr h hh)
+  have he := getEntry_resolveRegions T C hC k _ ms hs hne
+  rw [hcov] at he
+  simp only [if_true] at he
+  rintro ⟨l, hl, hT⟩
+  rw [he] at hl
+  exact rk_unlocks T C k _ l hl hT
+
+/-- the single outcome: a flushed key that `T` still locks (with the put / delete / lock it flushed) ends with `T`'s
+    commit record at `C` carrying the flushed value when the primary was committed, with `T`'s rollback marker when it
+    was rolled back -/
+theorem resolve_outcome_is_primarys (ms : Mvcc.Store) (hs : Mvcc.SInv ms) (T C : Nat) (hC : C = 0 ∨ T < C)
+    (splits : List Bytes) (hsp : ∀ h ∈ splits, h ≠ []) (bs : List (List Bytes)) (hv : validBatches bs)
+    (k : Bytes) (hk : k ∈ bs.flatten) (l : Mvcc.Lock) (hl : (Mvcc.getEntry ms.kv k).lock = some l)
+    (hT : l.startTS = T) (hop : l.op ≠ .pessimisticLock) :
+    (0 < C → ∃ w ∈ (Mvcc.getEntry (resolveRegionsStore ms (runOnRange splits (boundsOf bs).1 (boundsOf bs).2) T C).kv k).writes,
+      w.startTS = T ∧ w.commitTS = C ∧ w.vt ≠ .rollback ∧ w.value = l.value) ∧
+    (C = 0 → ∃ w ∈ (Mvcc.getEntry (resolveRegionsStore ms (runOnRange splits (boundsOf bs).1 (boundsOf bs).2) T C).kv k).writes,
+      w.startTS = T ∧ w.vt = .rollback) := by
+  rw [(resolve_drives_flushed_locks ms hs T C hC splits hsp bs hv k hk).2]
+  exact rk_record T C k _ l hl hT hop
+
+/-- and the outcome is final: no later store command can commit, roll back or re-lock that key for `T`
+    (Proofs/MvccTemporal.lean, `KStep.final`, over the 8-label per-key transition system every store command refines) -/
+theorem resolved_key_is_final (e e' : Mvcc.Entry) (lab : Mvcc.KLabel) (T : Nat) (hstep : Mvcc.KStep e lab e')
+    (hi : Mvcc.EInv e) (hrec : ∃ w ∈ e.writes, w.startTS = T) : lab.txn ≠ some T :=
+  hstep.final hi hrec
+
+def demoMutation : Mvcc.Mutation := { op := .put, key := [0x61], value := [1] }
+def demoReq : Mvcc.PrewriteReq := { mutations := [demoMutation], primary := [0x61], startTS := 5, ttl := 10 }
+
+/-- non-vacuity: a store that satisfies the store invariant and holds a flushed (put) lock of transaction 5 -/
+example : Mvcc.SInv ((Mvcc.Cmd.prewrite demoReq).run {}) ∧
+    ((Mvcc.getEntry ((Mvcc.Cmd.prewrite demoReq).run {}).kv [0x61]).lock.map fun l => (l.startTS, l.op)) = some (5, .put) :=
+  ⟨Mvcc.SInv_run _ _ Mvcc.SInv.empty trivial, by decide⟩
 
 end CGV.Props.C16
